@@ -8,6 +8,15 @@ TB = ("Trusted: Lean 4.33 kernel (axioms propext, Classical.choice, Quot.sound o
       "the correspondence harness; GEOS/pandas/joblib/GDAL are parameters of the model whose laws are only sampled by the correspondence streams.")
 
 CLAIMS = {
+    "C01": dict(
+        text=("Proof (Lean 4), combinatorial half: for EVERY well-formed contact structure (any number of traces/contacts) the code's degree counting "
+              "(regenerated degree_to_class / determine_branch_identity on the noded pieces) yields X at crossings (multiplicity 4), Y at abutments (3), "
+              "I at free tips, E at boundary ends, each branch the pair of its end kinds, #branches = sum(|events|-1), handshake; length-filter factors 2.01/1.01, "
+              "candidate margin 20t and loop bound regenerated and proved. Geometric half (GEOS noding yields exactly the pieces between the exact contacts on valid maps): "
+              "stated as law NodingSpec and sampled by stream S01 -- the real branches_and_nodes and Network(...) against the exact-rational contact oracle "
+              "(Model/Contacts.lean) on valid maps at scales 1/64..64, offsets to 1e7, box/circle/concave/holed areas; nodes and branches compared with coordinates."),
+        note=TB + " partial: the snapping pass being the identity on valid maps is not a theorem (no Lean model of simple_snap/insert_point yet); it is covered by S01 only. union_all, gpd.clip, WKT-key injectivity are L0.",
+        ref="DESIGN.md section 6 C01", technique="Lean 4 theorems on contact structures + exact-rational arrangement oracle run against the implementation"),
     "C05": dict(
         text=("Proof (Lean 4): for ALL branch lists over any point type -- nodes duplicate-free, every end has exactly one node, every node an end, "
               "handshake sum = 2|branches|, E iff near boundary, class = fixed function of degree (regenerated degree_to_class = spec), "
